@@ -22,6 +22,14 @@ TEXT = ('plain exp/log atoms are lowered like their perspective siblings with sc
 P = {'props': ['C06', 'C11']}
 
 
+_FN = [None]
+
+
+def _expand(e):
+    from .common import expand_locals
+    return expand_locals(_FN[0], e) if _FN[0] is not None else e
+
+
 def _branch_roles(body):
     """-> list of ExpConstr role triples in a lowering branch"""
     roles = None
@@ -31,7 +39,7 @@ def _branch_roles(body):
             if isinstance(n, ast.Call) and call_name(n) == 'rso_broadcast':
                 roles = []
                 for a in n.args:
-                    t = ntext(a)
+                    t = ntext(_expand(a))
                     roles.append('in' if 'affine_in' in t else 'scale' if 'affine_scale' in t
                                  else 'out' if 'affine_out' in t else '?')
     if roles is None:
@@ -60,6 +68,7 @@ def run(repo):
     res = RuleResult(RULE, 'exponential-cone convention: sibling agreement', TEXT)
     res.floor = 5
     fi = repo.func('gcp.Model.do_math')
+    _FN[0] = fi.node
     res.functions.add(fi.fq)
     found = {}
     for n in walk_no_nested(fi.node):
